@@ -93,8 +93,10 @@ def u64 : Int := 18446744073709551616
     `make`, slice bounds out of range) -/
 def buildOne (lowest : Int) (data : List UInt8) (base : Nat) : QFrame → Option (List UInt8)
   | .crypto off len =>
-    let lengthOffset := off - lowest
-    let length := if len = 0 then (data.length : Int) - lengthOffset else len
+    -- lengthOffset := min(offset-lowestOffset, len(cryptoData))
+    let lengthOffset := min (off - lowest) (data.length : Int)
+    -- if length == 0 || length > len(cryptoData)-lengthOffset { length = len(cryptoData) - lengthOffset }
+    let length := if len = 0 ∨ len > (data.length : Int) - lengthOffset then (data.length : Int) - lengthOffset else len
     let wire := (off + (base : Int)) % u64          -- uint64(offset) + baseOffset wraps
     match appendVarint wire.toNat, (if length < 0 then none else appendVarint length.toNat) with
     | some a, some b =>
